@@ -27,7 +27,7 @@ ANCHORS = [
     "acnportal.contrib.acnsim.network.stochastic_network:StochasticNetwork.available_evses",
 ]
 REQUIRED = ["calls:plugin", "calls:unplug", "calls:post_update", "walks", "placed_on_free_station", "enqueued", "admitted_from_queue",
-            "departed_while_waiting", "early_departures", "late_unplug_of_early_leaver", "runs_completed", "replays_compared",
+            "departed_while_waiting", "early_departures", "late_unplug_of_early_leaver", "runs_completed", "replays_compared", "energy_ledgers_checked",
             "regime:early-on", "regime:early-off", "regime:more-sessions-than-stations", "regime:simultaneous-departure-connected-and-waiting",
             "distinct_station_choices"]
 BUDGET_S = {"quick": 240, "thorough": 3000}
@@ -114,6 +114,7 @@ def monitored_run(d, rseed, obs, judge=True):
     stations = list(net.station_ids)
     sh = Shadow(stations)
     log = []  # placement log: (iteration, op, session, station)
+    posts = {"n": 0}
     state = {"in_post": False, "depth": 0}
     wit = dict(scenario=d, rseed=rseed)
 
@@ -254,6 +255,7 @@ def monitored_run(d, rseed, obs, judge=True):
 
     def post_after(ctx, result, exc):
         state["in_post"] = False
+        posts["n"] += 1
         obs.ev("calls:post_update")
         if exc is not None:
             obs.violate("post_update_raised", f"{type(exc).__name__}: {exc}", **wit)
@@ -320,6 +322,7 @@ def monitored_run(d, rseed, obs, judge=True):
     finally:
         for w in reversed(wraps):
             w.remove()
+    sim._verif_posts = posts["n"]
     return sim, sh, log, exc
 
 
@@ -347,6 +350,16 @@ def run_case(case, obs):
     for sid in sids - ever:
         if sim.ev_history[sid].energy_delivered != 0:
             obs.violate("never_placed_session_got_energy", f"{sid}: {sim.ev_history[sid].energy_delivered} kWh", **wit)
+    # the end-of-period hook ran exactly once in every simulated period (early departures are decided there)
+    if sim._verif_posts != sim.iteration:
+        obs.violate("post_update_not_once_per_period", f"post_charging_update ran {sim._verif_posts} times in {sim.iteration} periods", **wit)
+    # aggregate energy ledger: what the sessions received is what the stations recorded (whoever sat where)
+    V = [s_["voltage"] for s_ in d["network"]["stations"]]
+    rec = sum(float(sim.charging_rates[i, :sim.iteration].sum()) * V[i] for i in range(len(V))) * d["period"] / 60.0 / 1000.0
+    got = sum(float(ev.energy_delivered) for ev in sim.ev_history.values())
+    obs.ev("energy_ledgers_checked")
+    if not abs(rec - got) <= 1e-9 * max(1.0, abs(got)):
+        obs.violate("energy_ledger", f"sessions received {got!r} kWh, recorded rates integrate to {rec!r} kWh", **wit)
     if net.swaps != sh.swaps:
         obs.violate("counters", f"swaps {net.swaps} model {sh.swaps}", **wit)
     # regimes
